@@ -321,7 +321,7 @@ def replace_at(fields, path, fn):
 def c14_pairs(D, tier, seed):
     rnd = random.Random(1000003 * seed + (17 if tier == "thorough" else 5))
     bases = healthy_bases(D)
-    n = 400 if tier == "thorough" else 52
+    n = 2000 if tier == "thorough" else 52
     hows = EXCL_HOW_THOROUGH if tier == "thorough" else EXCL_HOW_QUICK
     pairs = []
     for k in range(n):
@@ -592,7 +592,7 @@ def c15_shapes(tier, seed):
                   ("group", "r", [("leaf", "o", "Email", "email", "string"),
                                   ("group", "o", [("leaf", "r", "Street", "street", "string"), ("leaf", "o", "Floor", "floor", "int32")], "Address", "address")], "Contact", "contact"),
                   ("leaf", "o", "Balance", "balance", "float64")])
-    n = 400 if tier == "thorough" else 32
+    n = 2000 if tier == "thorough" else 32
     shapes = list(fixed)
     while len(shapes) < n:
         shapes.append(rand_fields(1, 4))
